@@ -448,6 +448,19 @@ pub async fn run_case(
                         acc.set_folder_description(folder.id(), values::desc_text(&e)).await?;
                     }
                 }
+                "ImportCopy" => {
+                    let f = a(2);
+                    let fid = *w.folders.get(&f).ok_or_else(|| anyhow!("no folder {f}"))?;
+                    let (pw, _) = sos_password::diceware::generate_passphrase()?;
+                    {
+                        use secrecy::ExposeSecret;
+                        w.reg.secret("folderpw", "export password of a folder copy", pw.expose_secret().as_bytes());
+                    }
+                    let key: AccessKey = pw.into();
+                    let mut acc = w.sync.devices[di].account.lock().await;
+                    let buffer = acc.export_folder_buffer(&fid, key.clone(), false).await?;
+                    acc.import_folder_buffer(&buffer, key, false).await?;
+                }
                 "RenameFolder" => {
                     let (f, nm) = (a(2), a(3));
                     let fid = *w.folders.get(&f).ok_or_else(|| anyhow!("no folder {f}"))?;
